@@ -11,14 +11,14 @@ namespace Neutrino.Store
 /-- **Any sequence of store operations, killed inside any one of them** (the
 reorganisation and import arms are such sequences): see `ops_recover`. -/
 theorem C08_sequence_recover (d : Durable) (l : Log) (ops : List Op) (i k torn : Nat) (op : Op)
-    (hrep : Rep d l) (hc : ContractAll l ops) (hop : ops[i]? = some op) :
-    let r := exec (runAll d (ops.take i)) op (.crash k torn)
+    (hrep : Rep d l) (hc : ContractSeq l ops) (hop : ops[i]? = some op) :
+    let r := exec (runSeq d (ops.take i)) op (.crash k torn)
     (r.2 = .crashed →
         ∃ d' lx, reopen r.1 = some d' ∧ Rep d' lx ∧ lx.filters.length ≤ lx.blocks.length ∧
           (match op with
-           | .rollto _ => Between (applyAll l (ops.take i)) (applyAll l (ops.take (i + 1))) lx
-           | _ => lx = applyAll l (ops.take i) ∨ lx = applyAll l (ops.take (i + 1)))) ∧
-    (r.2 ≠ .crashed → Rep r.1 (applyAll l (ops.take (i + 1)))) :=
+           | .rollto _ => Between (applySeq l (ops.take i)) (applySeq l (ops.take (i + 1))) lx
+           | _ => lx = applySeq l (ops.take i) ∨ lx = applySeq l (ops.take (i + 1)))) ∧
+    (r.2 ≠ .crashed → Rep r.1 (applySeq l (ops.take (i + 1)))) :=
   ops_recover d l ops i k torn op hrep hc hop
 
 /-- **Every crash point of a header import.**  `d` is any consistent durable
@@ -36,7 +36,7 @@ theorem C08_import_recover (d : Durable) (l : Log) (bs : Nat) (nb nf : List Nat)
     (hbs : bs ≥ 1) (hrep : Rep d l) (hnd : nb.Nodup) (hfresh : ∀ x ∈ nb, x ∉ l.blocks) (hlen : nf.length = nb.length)
     (hop : (importOps bs nb.length nb nf)[i]? = some op) :
     let ops := importOps bs nb.length nb nf
-    let r := exec (runAll d (ops.take i)) op (.crash k torn)
+    let r := exec (runSeq d (ops.take i)) op (.crash k torn)
     (r.2 = .crashed →
         ∃ d' lx j, reopen r.1 = some d' ∧ Rep d' lx ∧ (j = i ∨ j = i + 1) ∧
           lx = { blocks := l.blocks ++ nb.take (bs * ((j + 1) / 2)), filters := l.filters ++ nf.take (bs * (j / 2)) } ∧
@@ -45,15 +45,15 @@ theorem C08_import_recover (d : Durable) (l : Log) (bs : Nat) (nb nf : List Nat)
     (r.2 ≠ .crashed →
         Rep r.1 { blocks := l.blocks ++ nb.take (bs * ((i + 2) / 2)), filters := l.filters ++ nf.take (bs * ((i + 1) / 2)) }) := by
   intro ops r
-  have hc : ContractAll l ops :=
+  have hc : ContractSeq l ops :=
     importOps_contract bs nb.length l nb nf hnd hfresh (Nat.le_of_eq hlen) hrep.fle
-  have hshape := fun j => applyAll_importOps_take bs hbs nb.length l nb nf j (Nat.le_refl _) hlen
+  have hshape := fun j => applySeq_importOps_take bs hbs nb.length l nb nf j (Nat.le_refl _) hlen
   have h := ops_recover d l ops i k torn op hrep hc hop
   have hw : (∃ ids, op = .wb ids) ∨ (∃ ids, op = .wf ids) :=
     importOps_wbwf bs nb.length nb nf op (List.mem_of_getElem? hop)
   refine ⟨fun hcr => ?_, fun hn => ?_⟩
   · obtain ⟨d', lx, h1, h2, h3, h4⟩ := h.1 hcr
-    have h4' : lx = applyAll l (ops.take i) ∨ lx = applyAll l (ops.take (i + 1)) := by
+    have h4' : lx = applySeq l (ops.take i) ∨ lx = applySeq l (ops.take (i + 1)) := by
       rcases hw with ⟨ids, rfl⟩ | ⟨ids, rfl⟩ <;> exact h4
     have bound : ∀ j, (l.blocks ++ nb.take (bs * ((j + 1) / 2))).length ≤
         (l.filters ++ nf.take (bs * (j / 2))).length + bs + (l.blocks.length - l.filters.length) := by
@@ -90,11 +90,11 @@ store is now AHEAD, the state from which the importer refuses every honest file
 (`Neutrino.Import.C14_block_ahead_always_fails`). -/
 example : importOps 2 5 [1, 2, 3, 4, 5] [1, 2, 3, 4, 5] =
     [.wb [1, 2], .wf [1, 2], .wb [3, 4], .wf [3, 4], .wb [5], .wf [5]] := by decide
-example : (exec (runAll init [.wb [1, 2]]) (.wf [1, 2]) (.crash 0 40)).2 = .crashed := by decide
-example : (reopen (exec (runAll init [.wb [1, 2]]) (.wf [1, 2]) (.crash 0 40)).1).map (fun d => (d.bf.ents, d.ff.ents)) =
+example : (exec (runSeq init [.wb [1, 2]]) (.wf [1, 2]) (.crash 0 40)).2 = .crashed := by decide
+example : (reopen (exec (runSeq init [.wb [1, 2]]) (.wf [1, 2]) (.crash 0 40)).1).map (fun d => (d.bf.ents, d.ff.ents)) =
     some ([0, 1, 2], [0]) := by decide
 example : runCrash init (importOps 2 5 [1, 2, 3, 4, 5] [1, 2, 3, 4, 5]) 2 40 =
-    ((exec (runAll init [.wb [1, 2]]) (.wf [1, 2]) (.crash 0 40)).1, true) := by decide
+    ((exec (runSeq init [.wb [1, 2]]) (.wf [1, 2]) (.crash 0 40)).1, true) := by decide
 example : Rep init Log.init ∧ [1, 2, 3, 4, 5].Nodup ∧ ∀ x ∈ [1, 2, 3, 4, 5], x ∉ Log.init.blocks := by
   refine ⟨rep_init, by decide, by decide⟩
 
